@@ -109,7 +109,7 @@ Definition swizzle_spec (new_ids : list rid) (t : tattrs) : option tattrs :=
 
 Definition sh_z (s : sh) : Z := match s with SZ z => z | ST _ => 1 end.
 Definition flat_entry (style : Z) (seg : list sh) : sh :=
-  if Z.eqb style 0 then ST seg
+  if Z.eqb style 0 then ST (flat_map comps seg)
   else if Z.eqb style 1 then nest seg
   else if Z.eqb style 2 then last seg (SZ 0)
   else if Z.eqb style 3 then hd (SZ 0) seg
@@ -177,9 +177,8 @@ Fixpoint nodup_rid (l : list rid) : bool :=
 Definition is_sz (s : sh) : bool := match s with SZ _ => true | ST _ => false end.
 
 (* swizzle sorts the rank ids (str/list comparisons fail) and the data-level swap does not accept
-   tuple coordinates: defined on un-flattened ranks only.  A tuple-style flatten of a segment
-   that contains an already flattened rank is excluded: _flattenRankIdsShape nests that rank's
-   tuple shape while ids and coordinates are concatenated flat (reported as a suspect) *)
+   tuple coordinates: defined on un-flattened ranks only.  Flatten / merge accept segments that
+   contain already flattened ranks in every style (tuple style: S50 fix) *)
 Definition is_rs (r : rid) : bool := match r with RS _ => true | RL _ => false end.
 
 Definition wf_t (t : tattrs) : bool :=
@@ -198,7 +197,6 @@ Definition wf_x (x : xform) (t : tattrs) : bool :=
   | XSwap d => Nat.ltb (S d) (length (t_ids t)) && forallb is_rs (firstn 2 (skipn d (t_ids t)))
   | XFlatten d l st | XMerge d l st =>
     Nat.ltb 0 l && Nat.ltb (d + l) (length (t_ids t)) && (0 <=? st) && (st <=? 4)
-    && (forallb is_rs (firstn (S l) (skipn d (t_ids t))) || negb (st =? 0))
     && (negb ((st =? 2) || (st =? 3)) || forallb is_rs (t_ids t))
     && negb (mem_rid (RL (flat_map atoms_of (firstn (S l) (skipn d (t_ids t))))) (t_ids t))
     && (negb (Z.eqb st 4)
